@@ -35,6 +35,10 @@ func BackendHost(i int) string { return fmt.Sprintf("b%d.test", i) }
 func BaseConfig(strategy string, weights []int) *config.Config {
 	cfg := &config.Config{}
 	cfg.Server.Port = 8080
+	// L1 histories park requests in backends across arbitrary amounts of virtual time; the documented
+	// end-to-end handler timeout (default 30 s) would cancel them, so it is set to a day here.
+	// Checks about that timeout (C03) configure it themselves.
+	cfg.Server.Timeouts.Handler = 86400
 	cfg.LoadBalancer.Strategy = strategy
 	for i, w := range weights {
 		cfg.Backends = append(cfg.Backends, config.BackendConfig{Name: BackendName(i), Address: "http://" + BackendHost(i), Weight: w})
